@@ -9,6 +9,7 @@ import (
 	"sync/atomic"
 
 	"github.com/paulmach/orb"
+	"github.com/paulmach/orb/geojson"
 	"github.com/paulmach/orb/quadtree"
 
 	"verif/internal/h"
@@ -35,9 +36,41 @@ type c19query struct {
 
 var c19filters = []quadtree.FilterFunc{
 	nil,
-	func(p orb.Pointer) bool { return p.(*qitem).id%2 == 0 },
-	func(p orb.Pointer) bool { return p.(*qitem).id%7 == 3 },
+	func(p orb.Pointer) bool { return c19id(p)%2 == 0 },
+	func(p orb.Pointer) bool { return c19id(p)%7 == 3 },
 	func(p orb.Pointer) bool { return false }, // nothing qualifies: empty results
+}
+
+// stored values: plain points of the harness and, mixed in, the library's own orb.Pointer implementation
+// (*geojson.Feature with a point geometry, a geometry collection, a bbox member): their Point() runs library code
+// on every visit.
+func c19id(p orb.Pointer) int {
+	switch x := p.(type) {
+	case *qitem:
+		return x.id
+	case *geojson.Feature:
+		return x.ID.(int)
+	}
+	return -1
+}
+
+func c19value(i int, p orb.Point, kind int) orb.Pointer {
+	switch kind {
+	case 1:
+		f := geojson.NewFeature(p)
+		f.ID = i
+		return f
+	case 2:
+		f := geojson.NewFeature(orb.Collection{orb.MultiPoint{p}, p})
+		f.ID = i
+		return f
+	case 3:
+		f := geojson.NewFeature(orb.LineString{p, p})
+		f.ID = i
+		f.BBox = geojson.BBox{p[0], p[1], p[0], p[1]}
+		return f
+	}
+	return &qitem{id: i, pt: p}
 }
 
 func c19run(t *quadtree.Quadtree, q *c19query, b []orb.Pointer) []orb.Pointer {
@@ -99,7 +132,7 @@ func init() {
 	h.Register(&h.Monitor{
 		ID:   "C19",
 		Race: true,
-		Rule: "configurations = (tree contents: empty / 1 / 7 / 1000 / 50000 points, uniform / clustered / all-duplicate / mid-line points, 0-90% of the points removed again) x (2..32 goroutines) x (GOMAXPROCS 1, 2, 16) x (yield probability inside the traversal 0, 1/64, 1/4); every goroutine replays a shuffled copy of one query list (Find, Matching, KNearest(Matching) with k in {1,3,16} with and without distance limit (limits from 0.001 to beyond the whole tree, +Inf), InBound(Matching); with a nil buffer, an empty per-goroutine buffer or the goroutine's previous result as the buffer; distance limits as scalars or as one shared slice passed with ...; some queries have empty results), each answer compared with the sequential answer. " +
+		Rule: "configurations = (stored values: the harness's plain points, with *geojson.Feature values (point, collection and bbox variants) as every 3rd or 17th value in two thirds of the configurations; tree contents: empty / 1 / 7 / 1000 / 50000 points, uniform / clustered / all-duplicate / mid-line points, 0-90% of the points removed again) x (2..32 goroutines) x (GOMAXPROCS 1, 2, 16) x (yield probability inside the traversal 0, 1/64, 1/4); every goroutine replays a shuffled copy of one query list (Find, Matching, KNearest(Matching) with k in {1,3,16} with and without distance limit (limits from 0.001 to beyond the whole tree, +Inf), InBound(Matching); with a nil buffer, an empty per-goroutine buffer or the goroutine's previous result as the buffer; distance limits as scalars or as one shared slice passed with ...; some queries have empty results), each answer compared with the sequential answer. " +
 			"non-trivial = configuration with at least one pair of queries from different goroutines overlapping in time (measured through the traversal hook's event counter); distinct = configuration index and repetition",
 		MinNontrivial: h.Fixed(8, 200),
 		Assumptions: []string{
@@ -132,7 +165,8 @@ func init() {
 					// first touched by the concurrent readers, so state that is filled in lazily by the first queries
 					// after building is exercised concurrently too
 					tree, twin := quadtree.New(b), quadtree.New(b)
-					items := make([]*qitem, 0, n)
+					items := make([]orb.Pointer, 0, n)
+					featureEvery := []int{0, 3, 17}[r.Intn(3)] // no library values / every third / every 17th stored value
 					for i := 0; i < n; i++ {
 						var p orb.Point
 						switch shape {
@@ -152,7 +186,14 @@ func init() {
 						default:
 							p = orb.Point{float64(r.Intn(9)) * 128, float64(r.Intn(9)) * 128}
 						}
-						it := &qitem{id: i, pt: p}
+						var it orb.Pointer = &qitem{id: i, pt: p}
+						if featureEvery > 0 && i%featureEvery == 0 {
+							it = c19value(i, p, 1+r.Intn(3))
+							if it.Point() != p {
+								c.Fail("", "harness: a feature value does not report the point it was built from", map[string]interface{}{"point": sv(p), "reported": sv(it.Point())})
+								return
+							}
+						}
 						twin.Add(it)
 						if err := tree.Add(it); err != nil {
 							c.Fail("", "Add failed while building the tree", map[string]interface{}{"config": cfg, "point": sv(p), "err": err.Error()})
@@ -160,14 +201,14 @@ func init() {
 						}
 						items = append(items, it)
 					}
-					live := map[*qitem]bool{}
+					live := map[orb.Pointer]bool{}
 					for _, it := range items {
 						live[it] = true
 					}
 					for _, i := range r.Perm(len(items))[:int(removeFrac*float64(len(items)))] {
 						it := items[i]
-						twin.Remove(it, func(p orb.Pointer) bool { return p == orb.Pointer(it) })
-						if !tree.Remove(it, func(p orb.Pointer) bool { return p == orb.Pointer(it) }) {
+						twin.Remove(it, func(p orb.Pointer) bool { return p == it })
+						if !tree.Remove(it, func(p orb.Pointer) bool { return p == it }) {
 							c.Fail("", "Remove failed while building the tree", map[string]interface{}{"config": cfg})
 							return
 						}
@@ -188,7 +229,7 @@ func init() {
 						q.kind = r.Intn(6)
 						q.p = orb.Point{r.Uniform(-50, 1074), r.Uniform(-50, 1074)}
 						if len(items) > 0 && r.Bool() {
-							q.p = items[r.Intn(len(items))].pt
+							q.p = items[r.Intn(len(items))].Point()
 						}
 						q.k = []int{1, 3, 16}[r.Intn(3)]
 						q.maxDist = -1
@@ -228,7 +269,7 @@ func init() {
 						return nil
 					}
 
-					idf := func(p orb.Pointer) uint64 { return uint64(p.(*qitem).id) + 1 }
+					idf := func(p orb.Pointer) uint64 { return uint64(c19id(p)) + 1 }
 					hash0 := tree.VerifHash(idf)
 
 					// sequential answers (hook off)
@@ -350,7 +391,7 @@ func init() {
 					got := tree.InBound(nil, b)
 					okC := len(got) == len(live)
 					for _, p := range got {
-						okC = okC && live[p.(*qitem)]
+						okC = okC && live[p]
 					}
 					if !okC {
 						c.Fail("", "the tree's contents changed during read-only queries", map[string]interface{}{"config": cfg, "before": len(live), "after": len(got)})
